@@ -34,6 +34,16 @@
 (* evaluator with Python's laziness (if / any / all: MEval, Reached).      *)
 (* InScope: the lists the sharing sentences of the statement speak about.  *)
 (*                                                                         *)
+(* Round 3: OBJECT SHARING of the input is part of the input space.  A     *)
+(* tree record says which nodes are EQUAL; a sharing layout (Layout, below)*)
+(* says which equal occurrences are ONE Python object and which are equal  *)
+(* but separately built objects - per occurrence, in particular several    *)
+(* operands of ONE sum / product.  The property's verdicts never look at   *)
+(* the layout (the once-only claim does not depend on how the caller       *)
+(* shared his objects); the transcribed use counter walks the OBJECT graph *)
+(* (paths + layout), so that identity-dependent walks are expressible as   *)
+(* negative controls (WalkDedupsSharedOperands, WalkSkipsSeenObjects).     *)
+(*                                                                         *)
 (* Assumption (stated in the evidence): inside one generated case no two   *)
 (* constants are == without being identical (no 2 next to 2.0 or True      *)
 (* next to 1), so Python's == on trees is structural equality of the       *)
@@ -180,6 +190,110 @@ UnattributedRs(ins, outs) ==
     LET cls == InClasses(ins) IN {R \in OccRs(SeqOccs(outs)) : NClassesC(cls, R) = 0}
 
 (***************************************************************************)
+(* Round 3, input space: object-sharing layouts.                           *)
+(*                                                                         *)
+(* A path is the sequence of child positions (Kids order) from the root;   *)
+(* the root of a tagging call is the list itself, carried as a Tup node    *)
+(* (path << j >> is the j-th expression).  A layout is                      *)
+(*   [mode |-> "none"]    every node a separately built object             *)
+(*   [mode |-> "all"]     equal subtrees (leaves included) are one object  *)
+(*                        wherever they occur (hash-consing)               *)
+(*   [mode |-> "groups", gs |-> << g1, g2, .. >>]  each group a sequence   *)
+(*                        of paths (document order) of EQUAL composite     *)
+(*                        subtrees that are one object: the first path is  *)
+(*                        where the object is built, the others re-use it; *)
+(*                        every occurrence not mentioned is a new object.  *)
+(* Normal form (LayoutOK): nothing is mentioned at or below a re-using     *)
+(* occurrence (what stands there IS the object built at the group's first  *)
+(* path, with that object's own children).  cls names the layout for       *)
+(* attribution only.                                                       *)
+(***************************************************************************)
+Composite(e) == e.t \notin {"Var", "Const", "None", "Hole"}
+Front(p) == SubSeq(p, 1, Len(p) - 1)
+IsPrefix(p, q) == Len(p) <= Len(q) /\ SubSeq(q, 1, Len(p)) = p
+RECURSIVE At(_, _), PathsOf(_), Before(_, _)
+At(e, p) == IF Len(p) = 0 THEN e ELSE At(Kids(e)[p[1]], Tail(p))
+PathsOf(e) == {<< >>} \cup UNION { { << i >> \o p : p \in PathsOf(Kids(e)[i]) } : i \in 1..Len(Kids(e)) }
+\* p strictly before q in document order (preorder, left to right)
+Before(p, q) == IF Len(p) = 0 THEN Len(q) > 0
+                ELSE IF Len(q) = 0 THEN FALSE
+                ELSE IF p[1] # q[1] THEN p[1] < q[1] ELSE Before(Tail(p), Tail(q))
+SortPaths(S) == LET RECURSIVE Go(_)
+                    Go(T) == IF T = {} THEN << >>
+                             ELSE LET f == CHOOSE x \in T : \A y \in T \ {x} : Before(x, y)
+                                  IN << f >> \o Go(T \ {f})
+                IN Go(S)
+NoLayout  == [mode |-> "none", gs |-> << >>, cls |-> "none"]
+AllLayout == [mode |-> "all", gs |-> << >>, cls |-> "all-equal-subtrees-shared"]
+GroupsClass(gs) ==
+    IF \E i \in 1..Len(gs) : \E k, l \in 1..Len(gs[i]) : k < l /\ Front(gs[i][k]) = Front(gs[i][l])
+    THEN "operands-of-one-node-shared" ELSE "shared-across-nodes"
+GroupsLayout(gs) == [mode |-> "groups", gs |-> gs, cls |-> GroupsClass(gs)]
+LayoutOK(root, lay) ==
+    lay.mode = "groups" =>
+        LET gs == lay.gs IN
+        /\ \A i \in 1..Len(gs) :
+              /\ Len(gs[i]) >= 2
+              /\ \A k \in 1..Len(gs[i]) : /\ Len(gs[i][k]) > 0
+                                          /\ gs[i][k] \in PathsOf(root)
+                                          /\ At(root, gs[i][k]) = At(root, gs[i][1])
+                                          /\ Composite(At(root, gs[i][k]))
+              /\ \A k \in 1..(Len(gs[i]) - 1) : Before(gs[i][k], gs[i][k + 1])
+        /\ \A i, j \in 1..Len(gs) : \A k \in 1..Len(gs[i]) : \A l \in 2..Len(gs[j]) :
+              (i # j \/ k # l) => ~IsPrefix(gs[j][l], gs[i][k])
+\* the path at which the object standing at path p was built
+GroupFirst(gs, p) ==
+    IF \E i \in 1..Len(gs) : \E k \in 1..Len(gs[i]) : gs[i][k] = p
+    THEN gs[CHOOSE i \in 1..Len(gs) : \E k \in 1..Len(gs[i]) : gs[i][k] = p][1] ELSE p
+CanonPath(gs, p) == LET RECURSIVE Go(_, _)
+                        Go(c, k) == LET c2 == GroupFirst(gs, c) IN
+                                    IF k > Len(p) THEN c2 ELSE Go(Append(c2, p[k]), k + 1)
+                    IN Go(<< >>, 1)
+\* object identity: two paths hold the same object iff their ObjId is equal
+ObjId(root, lay, p) ==
+    CASE lay.mode = "all" -> [v |-> At(root, p)]
+      [] lay.mode = "groups" -> [p |-> CanonPath(lay.gs, p)]
+      [] OTHER -> [p |-> p]
+
+\* composite nodes below the root with their paths
+RECURSIVE NodesAt(_, _)
+NodesAt(e, path) ==
+    (IF Composite(e) /\ Len(path) > 0 THEN {[p |-> path, v |-> e]} ELSE {})
+    \cup UNION { NodesAt(Kids(e)[i], Append(path, i)) : i \in 1..Len(Kids(e)) }
+\* The layouts generated for a list (besides "none", which every case has), as a sequence:
+\*   for every repeated composite subtree value X with occurrences O(X)
+\*     - all of O(X) one object,
+\*     - the occurrences that are operands of ONE node (same parent) one object, the
+\*       others separate objects,
+\*     - rich: any two occurrences one object when X occurs 3 or 4 times,
+\*   rich: two repeated values fully shared at once,
+\*   hash-consing of everything (leaves included).
+\* Layouts that make operands of one node one object come first (attribution).
+LayoutsOf(ins, rich) ==
+    LET root == [t |-> "Tup", c |-> ins]
+        occ  == NodesAt(root, << >>)
+        O(X) == { o.p : o \in { x \in occ : x.v = X } }
+        rep  == { X \in { o.v : o \in occ } : Cardinality(O(X)) >= 2 }
+        sib(X) == { s \in { { p \in O(X) : Front(p) = pp } : pp \in { Front(p) : p \in O(X) } } :
+                       Cardinality(s) >= 2 }
+        pairs(X) == IF rich /\ Cardinality(O(X)) \in 3..4
+                    THEN { s \in SUBSET O(X) : Cardinality(s) = 2 } ELSE {}
+        one  == { << SortPaths(g) >> : g \in UNION { {O(X)} \cup sib(X) \cup pairs(X) : X \in rep } }
+        \* two values at once: what lies below a re-using occurrence of the other is dropped
+        trim(g, h) == { p \in g : \A q \in h \ {CHOOSE x \in h : \A y \in h \ {x} : Before(x, y)} :
+                                     ~IsPrefix(q, p) }
+        two  == IF ~rich THEN {}
+                ELSE { << SortPaths(trim(O(pr[1]), O(pr[2]))), SortPaths(trim(O(pr[2]), O(pr[1]))) >> :
+                          pr \in { qr \in rep \X rep :
+                                      /\ qr[1] # qr[2]
+                                      /\ Before(SortPaths(O(qr[1]))[1], SortPaths(O(qr[2]))[1])
+                                      /\ Cardinality(trim(O(qr[1]), O(qr[2]))) >= 2
+                                      /\ Cardinality(trim(O(qr[2]), O(qr[1]))) >= 2 } }
+        lays == { GroupsLayout(gs) : gs \in one \cup two }
+        near == { l \in lays : l.cls = "operands-of-one-node-shared" }
+    IN SetToSeq(near) \o SetToSeq(lays \ near) \o << AllLayout >>
+
+(***************************************************************************)
 (* A-layer: the wrap helpers as the code has them                          *)
 (* (pymbolic/primitives.py wrap_in_cse, make_common_subexpression).        *)
 (* Object arrays: [t |-> "Arr", shape, c] (row major); multivectors:       *)
@@ -302,18 +416,43 @@ KeyOf(e) ==
          ELSE [t |-> e.t, bag |-> BagOfSeq(e.c)])
     ELSE [t |-> "same", same |-> e]
 
-RECURSIVE UCWalk(_, _)
-UCWalkSeq(es, cnt) ==
-    LET RECURSIVE Go(_, _)
-        Go(i, c) == IF i > Len(es) THEN c ELSE Go(i + 1, UCWalk(es[i], c))
-    IN Go(1, cnt)
-UCWalk(e, cnt) ==
-    LET k == KeyOf(e) IN
-    IF k \in DOMAIN cnt THEN [cnt EXCEPT ![k] = @ + 1]
-    ELSE IF e.t = "CSE" THEN
-        LET c1 == UCWalk(e.a, cnt) IN
-        [x \in DOMAIN c1 \cup {k} |-> IF x = k THEN 1 ELSE c1[x]]
-    ELSE UCWalkSeq(Kids(e), cnt @@ (k :> 1))
+\* Round 3: the walk goes over the OBJECT graph of the input - ctx = [root, lay] is the list
+\* (as a Tup node) with its sharing layout, path says where the walk stands, st = [cnt, seen].
+\* WalkMapper's handlers call rec on EVERY child in turn, however the children are shared, and
+\* visit() looks at the key only: the code's walk does not depend on the layout.  The negative
+\* controls make it depend on it:
+\*   WalkDedupsSharedOperands  an operand object that stands several times among the children
+\*                             of one node (sum, product, call, quotient, ...) is walked once
+\*   WalkSkipsSeenObjects      an object the walk has met before (anywhere) is not looked at again
+IdentityBugs == {"WalkDedupsSharedOperands", "WalkSkipsSeenObjects"}
+RECURSIVE UCWalk(_, _, _, _)
+UCWalkKids(ctx, e, path, st) ==
+    LET ks == Kids(e)
+        dup(i) == /\ Bug = "WalkDedupsSharedOperands" /\ Len(path) > 0
+                  /\ \E j \in 1..(i - 1) : ObjId(ctx.root, ctx.lay, Append(path, j))
+                                            = ObjId(ctx.root, ctx.lay, Append(path, i))
+        RECURSIVE Go(_, _)
+        Go(i, s) == IF i > Len(ks) THEN s
+                    ELSE Go(i + 1, IF dup(i) THEN s ELSE UCWalk(ctx, ks[i], Append(path, i), s))
+    IN Go(1, st)
+UCWalk(ctx, e, path, st) ==
+    LET k   == KeyOf(e)
+        oid == ObjId(ctx.root, ctx.lay, path)
+    IN
+    IF Bug = "WalkSkipsSeenObjects" /\ oid \in st.seen THEN st
+    ELSE LET st0 == IF Bug = "WalkSkipsSeenObjects" THEN [st EXCEPT !.seen = @ \cup {oid}] ELSE st
+             cnt == st0.cnt
+         IN
+         IF k \in DOMAIN cnt THEN [st0 EXCEPT !.cnt = [cnt EXCEPT ![k] = @ + 1]]
+         ELSE IF e.t = "CSE" THEN
+             LET s1 == UCWalk(ctx, e.a, Append(path, 1), st0)
+                 c1 == s1.cnt
+             IN [s1 EXCEPT !.cnt = [x \in DOMAIN c1 \cup {k} |-> IF x = k THEN 1 ELSE c1[x]]]
+         ELSE UCWalkKids(ctx, e, path, [st0 EXCEPT !.cnt = cnt @@ (k :> 1)])
+\* tag_common_subexpressions: one use counter walks every expression of the list in turn
+UseCounts(ins, lay) ==
+    LET root == [t |-> "Tup", c |-> ins] IN
+    UCWalkKids([root |-> root, lay |-> lay], root, << >>, [cnt |-> EmptyBag, seen |-> {}]).cnt
 
 RECURSIVE CM(_, _, _), CMSeq(_, _, _, _)
 CMSeq(es, i, tab, elim) ==
@@ -351,10 +490,12 @@ CM(e, tab, elim) ==
                                            IF x = k THEN w ELSE r.tab[x]]])
          ELSE IdMap(e, tab, elim)
 
-TagImpl(ins) ==
-    LET cnt  == UCWalkSeq(ins, EmptyBag)
+\* the tagger on a list whose objects are shared as lay says
+TagImplL(ins, lay) ==
+    LET cnt  == UseCounts(ins, lay)
         elim == {k \in DOMAIN cnt : cnt[k] > 1}
     IN CMSeq(ins, 1, EmptyBag, elim).es
+TagImpl(ins) == TagImplL(ins, NoLayout)
 
 (***************************************************************************)
 (* A-layer: mapper/cse_tagger.py (histogram over exact ==, every node      *)
